@@ -223,3 +223,70 @@ Proof.
   rewrite (piBody_close _ p (adv p 2 (a ++ 63 :: 62 :: r)) a r); [reflexivity| |reflexivity|exact F].
   rewrite app_length. cbn [length]. lia.
 Qed.
+
+(* ---- any mix of white space and comments in front of a token ------------------------------- *)
+
+Inductive gap : list Z -> Prop :=
+| gap_nil : gap []
+| gap_space : forall c g, is_space c = true -> gap g -> gap (c :: g)
+| gap_comment : forall b g, comment_body b = true -> gap g -> gap (comment b ++ g).
+
+Lemma pos_rel_trans : forall x y z, pos_rel x y -> pos_rel y z -> pos_rel x z.
+Proof.
+  intros [q|l1 c1 m1| |] [q'|l2 c2 m2| |] [q''|l3 c3 m3| |]; cbn [pos_rel]; try tauto; congruence.
+Qed.
+
+Lemma pos_rel_refl_skip : forall com r o l s o' l' s', pos_rel (skipSp com r o l s) (skipSp com r o' l' s').
+Proof. intros. apply (skipSp_rest_indep (length r)). apply le_n. Qed.
+
+Lemma skipSp_ws : forall c r o l s o' l' s', is_space c = true ->
+  pos_rel (skipSp false (c :: r) o l s) (skipSp false r o' l' s').
+Proof.
+  intros c r o l s o' l' s' Hs. rewrite skipSp_eq.
+  destruct (c =? 13) eqn:E13.
+  { destruct r as [|c1 r2]; [exact I|]. destruct (c1 =? 10) eqn:E10.
+    - apply Z.eqb_eq in E10. subst c1. rewrite (skipSp_eq false (10 :: r2)). cbn [Z.eqb Pos.eqb].
+      apply pos_rel_refl_skip.
+    - apply pos_rel_refl_skip. }
+  destruct (c =? 10); [apply pos_rel_refl_skip|].
+  destruct (c =? 60) eqn:E60; [apply Z.eqb_eq in E60; subst c; discriminate|].
+  rewrite Hs. apply pos_rel_refl_skip.
+Qed.
+
+Lemma skipSp_gap : forall g, gap g -> forall r o l s o' l' s',
+  pos_rel (skipSp false (g ++ r) o l s) (skipSp false r o' l' s').
+Proof.
+  induction 1 as [|c g Hs Hg IH|b g Hb Hg IH]; intros r o l s o' l' s'.
+  - apply pos_rel_refl_skip.
+  - cbn [app]. eapply pos_rel_trans; [apply (skipSp_ws c (g ++ r) o l s 0 0 0 Hs)|apply IH].
+  - rewrite <- app_assoc. destruct (skipSp_comment b (g ++ r) o l s Hb) as (o1 & l1 & s1 & E). rewrite E. apply IH.
+Qed.
+
+(* white space and comments, in any mix, in front of any token: the tokenizer returns the same token *)
+Lemma readToken_gap : forall g p p', gap g -> rest p = g ++ rest p' -> tok_rel (readToken p) (readToken p').
+Proof.
+  intros g p p' Hg R.
+  pose proof (skipSp_gap g Hg (rest p') (off p) (line p) (ls p) (off p') (line p') (ls p')) as G.
+  unfold readToken, skipSpace. rewrite R.
+  destruct (skipSp false (g ++ rest p') (off p) (line p) (ls p)) as [q|sl sc sm| |];
+    destruct (skipSp false (rest p') (off p') (line p') (ls p')) as [q'|sl' sc' sm'| |]; cbn [pos_rel] in G; try contradiction; [|exact I].
+  cbn [bind].
+  (* both continue from cursors with the same remaining text *)
+  pose proof (readToken_rest_indep (mkPos (rest q) 0 0 0) (mkPos (rest q') 0 0 0) G) as T.
+  assert (HN : tok_rel (readName q) (readName q')) by (apply readName_rest_indep; exact G).
+  rewrite <- G.
+  destruct (rest q) as [|c r1]; [exact I|].
+  destruct (c =? 60).
+  { destruct r1 as [|c1 r2]; [exact I|]. destruct (c1 =? 47); cbn [tok_rel tty tval adv rest]; auto. }
+  destruct (c =? 62); [cbn [tok_rel tty tval adv rest]; auto|].
+  destruct (c =? 0); [reflexivity|].
+  destruct (c =? 61); [cbn [tok_rel tty tval adv rest]; auto|].
+  destruct ((c =? 34) || (c =? 39)).
+  { destruct (scan (fun x => (x =? c) || (x =? 13) || (x =? 10)) r1) as [[body r2]|]; [|exact I].
+    destruct r2 as [|e r3]; [exact I|].
+    destruct (e =? 0); [reflexivity|]. destruct (negb (e =? c)); [reflexivity|].
+    cbn [tok_rel tty tval adv rest]. auto. }
+  destruct (c =? 47); [|exact HN].
+  destruct r1 as [|c1 r2]; [exact I|].
+  destruct (c1 =? 62); [cbn [tok_rel tty tval adv rest]; auto|exact HN].
+Qed.
